@@ -11,6 +11,7 @@ package main
 import (
 	"bufio"
 	"context"
+	"encoding"
 	"encoding/json"
 	"errors"
 	"fmt"
@@ -26,6 +27,7 @@ import (
 	"github.com/vimeo/dials/ptrify"
 	"github.com/vimeo/dials/sourcewrap"
 	"github.com/vimeo/dials/tagformat"
+	cc "github.com/vimeo/dials/tagformat/caseconversion"
 	"github.com/vimeo/dials/transform"
 
 	"verifharness/internal/coqfmt"
@@ -168,7 +170,8 @@ func runCase[T any](in input) childResult {
 
 	var wrappedErrs, refErrs errLog
 	inner := &fakeWatcher{fakeSrc: fakeSrc{failValue: in.Inner == 1, failWatch: in.Inner == 3, ready: make(chan struct{})}}
-	inner.first = func(tt reflect.Type) reflect.Value { return mkFill(tt).V }
+	var seenType reflect.Type // the type the inner source is asked about
+	inner.first = func(tt reflect.Type) reflect.Value { seenType = tt; return mkFill(tt).V }
 	var innerSrc dials.Source = inner
 	if in.Inner <= 1 {
 		innerSrc = &inner.fakeSrc // not a Watcher
@@ -201,6 +204,13 @@ func runCase[T any](in input) childResult {
 	}
 	d, cfgErr := dials.Params[T]{OnWatchedError: func(context.Context, error, *T, *T) { wrappedErrs.add() }}.Config(ctx, defaults, wrapped)
 
+	if in.Via > 0 && seenType != nil {
+		// what the wrapped source gets to see: EVERY field, at every depth the
+		// transformer recurses to, carries its dials name in the requested casing
+		if m := checkReformatted(pt, seenType, xf.Encoders[in.Via-1], ""); m != "" {
+			res.Direct = append(res.Direct, "ReformatDialsTagSource: "+m)
+		}
+	}
 	initTerm := "IFail"
 	if in.Inner != 1 && len(fills) > 0 {
 		ctor := "IStatic"
@@ -331,6 +341,51 @@ func runCase[T any](in input) childResult {
 	res.Nontrivial = in.Inner == 2 && in.Steps >= 2 && len(chain) >= 1
 	res.Tags = append(res.Tags, fmt.Sprintf("steps-%d", len(steps)), fmt.Sprintf("unreversible-steps-%d", nErrSteps), fmt.Sprintf("rejected-by-verify-or-stack-steps-%d", nRejected))
 	return res
+}
+
+var textUnmarshalerT = reflect.TypeOf((*encoding.TextUnmarshaler)(nil)).Elem()
+
+// checkReformatted compares the type handed to the inner source (got) with the
+// config type (orig) field by field: the dials tag must be the re-cased dials
+// tag, or the re-cased Go field name where there is none.
+func checkReformatted(orig, got reflect.Type, enc cc.EncodeCasingFunc, path string) string {
+	// the transformer looks through ONE pointer, slice or array (a pointerified
+	// array *[N]T and maps are not recursed into: recorded limitation)
+	if orig.Kind() == reflect.Ptr || orig.Kind() == reflect.Slice || orig.Kind() == reflect.Array {
+		if got.Kind() != orig.Kind() {
+			return fmt.Sprintf("%s: kind %s became %s", path, orig.Kind(), got.Kind())
+		}
+		orig, got = orig.Elem(), got.Elem()
+	}
+	if orig.Kind() != reflect.Struct || orig.Implements(textUnmarshalerT) || reflect.PtrTo(orig).Implements(textUnmarshalerT) {
+		return ""
+	}
+	if got.Kind() != reflect.Struct || got.NumField() != orig.NumField() {
+		return fmt.Sprintf("%s: struct shape changed (%s -> %s)", path, orig, got)
+	}
+	for i := 0; i < orig.NumField(); i++ {
+		of, gf := orig.Field(i), got.Field(i)
+		if of.PkgPath != "" {
+			continue
+		}
+		var words cc.DecodedIdentifier
+		var err error
+		if tag := of.Tag.Get(common.DialsTagName); tag != "" {
+			words, err = cc.DecodeGoTags(tag)
+		} else {
+			words, err = cc.DecodeGoCamelCase(of.Name)
+		}
+		if err != nil {
+			continue
+		}
+		if want, have := enc(words), gf.Tag.Get(common.DialsTagName); want != have {
+			return fmt.Sprintf("field %s%s: dials tag %q, want %q", path, of.Name, have, want)
+		}
+		if m := checkReformatted(of.Type, gf.Type, enc, path+of.Name+"."); m != "" {
+			return m
+		}
+	}
+	return ""
 }
 
 // prime uses the wrapper for another config type of the palette first.
